@@ -114,3 +114,93 @@ def network_job(spec, M, points, num="float"):
 def state_vector(M, xdict):
     sl = M.get_species_list()
     return np.array([float(xdict[s]) for s in sl], dtype=float)
+
+
+# ------------------------------------------------------------------ positional dumps of real objects
+def _state(obj):
+    r = obj.__reduce__()
+    st = r[1][2] if (len(r[1]) > 2 and r[1][2] is not None) else (r[2] if len(r) > 2 else ())
+    return st
+
+
+def dump_prop(q, enc=f2b):
+    """Real Propensity object -> positional driver JSON (attributes through its pickle state,
+    which Cython orders alphabetically)."""
+    n = type(q).__name__
+    st = _state(q)
+    if n == "ConstitutivePropensity":       # (propensity_type, rate_index)
+        return {"type": "massaction", "k": int(st[1]), "reactants": []}
+    if n == "UnimolecularPropensity":       # (propensity_type, rate_index, species_index)
+        return {"type": "massaction", "k": int(st[1]), "reactants": [int(st[2])]}
+    if n == "BimolecularPropensity":        # (propensity_type, rate_index, s1_index, s2_index)
+        return {"type": "massaction", "k": int(st[1]), "reactants": [int(st[2]), int(st[3])]}
+    if n == "MassActionPropensity":         # (k_index, num_species, propensity_type, sp_counts, sp_inds)
+        return {"type": "massaction_raw", "k": int(st[0]), "n": int(st[1]), "counts": [int(v) for v in st[3]],
+                "inds": [int(v) for v in st[4]]}
+    if n in ("PositiveHillPropensity", "NegativeHillPropensity"):   # (K_index, n_index, propensity_type, rate_index, s1_index)
+        return {"type": "hillpositive" if n.startswith("Pos") else "hillnegative", "K": int(st[0]), "n": int(st[1]),
+                "k": int(st[3]), "s1": int(st[4])}
+    if n in ("PositiveProportionalHillPropensity", "NegativeProportionalHillPropensity"):
+        # (K_index, d_index, n_index, propensity_type, rate_index, s1_index)
+        return {"type": "proportionalhillpositive" if n.startswith("Pos") else "proportionalhillnegative",
+                "K": int(st[0]), "d": int(st[1]), "n": int(st[2]), "k": int(st[4]), "s1": int(st[5])}
+    if n == "GeneralPropensity":
+        return {"type": "general", "term": dump_term(q.py_get_term(), enc)}
+    raise ValueError("unknown propensity class " + n)
+
+
+def dump_rule(r, enc=f2b):
+    n = type(r).__name__
+    st = _state(r)
+    if n == "AdditiveAssignmentRule":       # (dest_index, frequency_flag, species_source_indices)
+        return {"freq": enc(st[1]), "op": "additive", "dest": int(st[0]), "srcs": [int(v) for v in st[2]]}
+    if n == "GeneralAssignmentRule":        # (dest_index, frequency_flag, param_flag, rhs)
+        return {"freq": enc(st[1]), "op": "assign", "dest": int(st[0]), "toParam": bool(st[2] > 0), "term": dump_term(st[3], enc)}
+    if n == "GeneralODERule":
+        return {"freq": enc(st[1]), "op": "ode", "dest": int(st[0]), "toParam": bool(st[2] > 0), "term": dump_term(st[3], enc)}
+    raise ValueError("unknown rule class " + n)
+
+
+def dump_delay(d):
+    n = type(d).__name__
+    st = _state(d)
+    if n == "NoDelay":
+        return ["none"]
+    if n == "FixedDelay":                   # (delay_index, delay_type)
+        return ["fixed", int(st[0])]
+    if n == "GaussianDelay":                # (delay_type, mean_index, std_index)
+        return ["gaussian", int(st[1]), int(st[2])]
+    if n == "GammaDelay":                   # (delay_type, k_index, theta_index)
+        return ["gamma", int(st[1]), int(st[2])]
+    raise ValueError("unknown delay class " + n)
+
+
+TWO_PI = 2.0 * 3.141592653589793238462643383279502884
+
+
+def sim_job(M, kind, times, seed, dt, t0=0.0, safe=False, num="float", x0=None, vol0=1.0, volmodel=None,
+            qlen=None, qdt=None, fuel=2000000, want_log=False):
+    """Driver job describing the interface a simulator sees, dumped from the real Model."""
+    enc = f2b
+    U = np.array(M.py_get_update_array())
+    D = np.array(M.py_get_delay_update_array())
+    st = M.__getstate__()
+    rules = st[6]
+    job = {"op": "sim", "num": num, "kind": kind, "nSpecies": int(U.shape[0]),
+           "props": [dump_prop(q, enc) for q in M.get_propensities()],
+           "U": [[int(v) for v in U[:, j]] for j in range(U.shape[1])],
+           "D": [[int(v) for v in D[:, j]] for j in range(D.shape[1])],
+           "rules": [dump_rule(r, enc) for r in rules],
+           "delays": [dump_delay(d) for d in M.get_delays()],
+           "safe": bool(safe), "dt": enc(dt), "t0": enc(t0), "twoPi": enc(TWO_PI),
+           "x0": [enc(v) for v in (x0 if x0 is not None else M.get_species_array())],
+           "p": [enc(v) for v in M.get_parameter_values()],
+           "times": [enc(v) for v in times], "seed": int(seed), "vol0": enc(vol0), "fuel": fuel,
+           "wantLog": bool(want_log)}
+    if volmodel is not None:
+        job["volmodel"] = volmodel
+    if qlen is not None:
+        job["qlen"] = int(qlen)
+    if qdt is not None:
+        job["qdt"] = enc(qdt)
+    return job
